@@ -215,11 +215,14 @@ def byToField : By → Field
   | .pos n => { expr := .pos n, asName := none }
 
 /-- `selectFields[name]` of `handleExtraFieldList`: the last of the first
-    `origin` fields whose alias or column name is `name` -/
-def selectFieldsLookup (fields : List Field) (origin : Nat) (name : Nat) : Option Nat :=
+    `origin` fields whose alias or column name is `name`.  A selected column
+    written `alias.column` has been replaced by a `ColumnNameExprDecorator` by
+    `handleFieldList`, fails the `*ast.ColumnNameExpr` type assertion and is
+    not entered into the map (`qual`); only its `AS` name is. -/
+def selectFieldsLookup (qual : Bool) (fields : List Field) (origin : Nat) (name : Nat) : Option Nat :=
   let idxs := (List.range origin).filter fun i =>
     match fields[i]? with
-    | some f => f.asName = some name || f.expr = .col name
+    | some f => f.asName = some name || (!qual && f.expr = .col name)
     | none => false
   idxs.getLast?
 
@@ -231,18 +234,18 @@ structure ExtraState where
 
 /-- one iteration of the GROUP BY loop of `handleExtraFieldList` (`i`-th item,
     `col = p.groupByColumn[i]` before the adjustment) -/
-def extraGroupStep (origin : Nat) (st : ExtraState) (i : Nat) (col : Int) : ExtraState :=
+def extraGroupStep (qual : Bool) (origin : Nat) (st : ExtraState) (i : Nat) (col : Int) : ExtraState :=
   let col := col - st.deleteNum
   let cur := origin + i - st.deleteNum
   match st.fields[cur]? with
   | some ⟨.col name, _⟩ =>
-    match selectFieldsLookup st.fields origin name with
+    match selectFieldsLookup qual st.fields origin name with
     | some index => { fields := st.fields.eraseIdx cur, deleteNum := st.deleteNum + 1, cols := st.cols ++ [(index : Int)] }
     | none => { st with cols := st.cols ++ [col] }
   | _ => { st with cols := st.cols ++ [col] }
 
 /-- one iteration of the ORDER BY loop of `handleExtraFieldList` -/
-def extraOrderStep (origin nGroup : Nat) (hasWildCard : Bool) (st : ExtraState) (i : Nat) (col : Int) : ExtraState :=
+def extraOrderStep (qual : Bool) (origin nGroup : Nat) (hasWildCard : Bool) (st : ExtraState) (i : Nat) (col : Int) : ExtraState :=
   let col := col - st.deleteNum
   let cur := origin + nGroup + i - st.deleteNum
   match st.fields[cur]? with
@@ -251,7 +254,7 @@ def extraOrderStep (origin nGroup : Nat) (hasWildCard : Bool) (st : ExtraState) 
       { fields := st.fields.eraseIdx cur, deleteNum := st.deleteNum + 1, cols := st.cols ++ [((n - 1 : Nat) : Int)] }
     else { st with cols := st.cols ++ [col] }
   | some ⟨.col name, _⟩ =>
-    match selectFieldsLookup st.fields origin name with
+    match selectFieldsLookup qual st.fields origin name with
     | some index => { fields := st.fields.eraseIdx cur, deleteNum := st.deleteNum + 1, cols := st.cols ++ [(index : Int)] }
     | none => { st with cols := st.cols ++ [col] }
   | _ => { st with cols := st.cols ++ [col] }
@@ -260,7 +263,8 @@ def foldIdx {σ α : Type} (f : σ → Nat → α → σ) : σ → Nat → List 
   | s, _, [] => s
   | s, i, a :: as => foldIdx f (f s i a) (i + 1) as
 
-/-- `byItemColumnName` (the statements of the model have no table qualifiers) -/
+/-- `byItemColumnName` (table qualifier and column name; a statement uses one qualifier per
+    table, so the column number stands for both) -/
 def byItemColumnName : By → Option Nat
   | .name n => some n
   | _ => none
@@ -319,8 +323,8 @@ def rewrite (q : Query) : R Plan :=
   let fields2 := fields1 ++ oItems.map byToField
   -- handleExtraFieldList
   let hasWildCard := (q.fields.any fun f => f.expr = .star)
-  let st1 := foldIdx (extraGroupStep origin) { fields := fields2, deleteNum := 0, cols := [] } 0 groupCols0
-  let st2 := foldIdx (extraOrderStep origin gItems.length hasWildCard) { st1 with cols := [] } 0 orderCols0
+  let st1 := foldIdx (extraGroupStep q.qualified origin) { fields := fields2, deleteNum := 0, cols := [] } 0 groupCols0
+  let st2 := foldIdx (extraOrderStep q.qualified origin gItems.length hasWildCard) { st1 with cols := [] } 0 orderCols0
   let fields := st2.fields
   -- handleExtraAggregateFields
   let aggs1 : List (Nat × AggKind) := (List.range fields.length).filterMap fun i =>
